@@ -260,7 +260,7 @@ def lattice(ctx: Ctx, out: Outcome, diagram) -> None:
     if ctx.thorough:
         plans.append((proper_boxes(4), -2, 6))
         big = [b for b in proper_boxes(6) if b[0] + b[2] > 4 or b[1] + b[3] > 4]
-        plans.append((ctx.rng.sample(big, 24), -2, 8))
+        plans.append((ctx.rng.sample(big, 16), -2, 8))
     else:
         plans.append((proper_boxes(3), -1, 4))
     combos = [("oblique", False), ("manhattan", False), ("manhattan", True), ("tree", False), ("tree", True)]
@@ -849,7 +849,7 @@ def parser_run(ctx: Ctx, out: Outcome) -> None:
                     out.find(sig, f"{rel} {d.name!r} translated by {v}: {what}", {"kind": "sound", **where, "v": list(v)})
             # move one top-level node
             if len(tops) >= 1:
-                for _ in range(ctx.pick(1, 3)):
+                for _ in range(ctx.pick(2, 4)):
                     k = rng.randrange(len(tops))
                     node, lc = tops[k]
                     nid = node.get("element") or node.get(rig.C.ATT_XMID)
@@ -967,7 +967,42 @@ def replay(ctx: Ctx, case: dict):
             return None
         bad = soundness(moved)
         return "; ".join(w for _, w in bad[:3]) or None
-    # the small kernel functions: re-run that part
+    if kind == "port":
+        px, py, pw, ph, cx, cy, cw, ch = (F(v) for v in case["v"])
+        parent = diagram.Box((float(px), float(py)), (float(pw), float(ph)))
+        try:
+            child = diagram.Box((float(cx), float(cy)), (float(cw), float(ch)), port=True, parent=parent)
+        except (AssertionError, ValueError) as e:
+            return f"snap_to_parent raised {err_kind(e)}"
+        if not port_attached(px, py, pw, ph, F(child.pos.x), F(child.pos.y), cw, ch, F(1, 10**8)):
+            return f"port ends at {tuple(child.pos)}, not attached to parent {case['v'][:4]}"
+        return None
+    if kind == "child":
+        px, py, pw, ph, cx, cy, cw, ch = (F(v) for v in case["v"])
+        parent = diagram.Box((float(px), float(py)), (float(pw), float(ph)))
+        child = diagram.Box((float(cx), float(cy)), (float(cw), float(ch)), parent=parent)
+        r = [child.pos.x, child.pos.y, child._size.x, child._size.y]
+        if F(r[0]) < px + 2 or F(r[1]) < py + 2 or (r[2] > 0 and F(r[0]) + F(r[2]) > px + pw - 2) or (r[3] > 0 and F(r[1]) + F(r[3]) > py + ph - 2):
+            return f"child -> {r} overflows parent {case['v'][:4]}"
+        return None
+    if kind == "viewport":
+        rects = [[F(v) for v in r] for r in case["rects"]]
+        dg = diagram.Diagram("t")
+        for k, r in enumerate(rects):
+            dg.add_element(diagram.Box((float(r[0]), float(r[1])), (float(r[2] - r[0]), float(r[3] - r[1])), uuid=f"b{k}"), False)
+        dg.calculate_viewport()
+        vp = dg.viewport
+        for r in rects:
+            if not (vp.pos.x <= r[0] and vp.pos.y <= r[1] and r[2] <= vp.pos.x + vp.size.x and r[3] <= vp.pos.y + vp.size.y):
+                return f"viewport {tuple(vp.pos)},{tuple(vp.size)} misses {[str(v) for v in r]}"
+        return None
+    if kind == "boxsnap":
+        e, f, a, b, c, d = (F(v) for v in case["v"])
+        r = diagram.Vector2D(float(e), float(f)).boxsnap((float(a), float(b)), (float(c), float(d)))
+        if not on_outline(min(a, c), min(b, d), abs(a - c), abs(b - d), F(r.x), F(r.y)):
+            return f"boxsnap -> {tuple(r)} off the outline"
+        return None
+    # remaining small kernel functions: re-run that part
     o = Outcome()
     kernel_misc(Ctx("C17", "quick", ctx.seed), o, diagram)
     for f in o.findings:
